@@ -1,24 +1,29 @@
 """C21 -- x86 backend code computes the source results and honours the SysV ABI.
 
-Tie.  Every generated func/arith integer function (i64 mostly, also i32/i16/i8; constants, add/mul chains,
-argument reuse, up to 10 arguments, many live values) is pushed through the REAL documented pipeline
-(convert-func-to-x86-func, convert-arith-to-x86, reconcile-unrealized-casts, canonicalize, dce,
-x86-allocate-registers, canonicalize, x86-prologue-epilogue-insertion, -t x86-asm).  Three observables of the
-real run are compared with the Coq model (coq/C21/Model.v) evaluated by vm_compute inside coqc:
-  (lowering)  the pre-allocation x86 IR (after `dce`), canonically renumbered, vs `c21_lower` of the source;
-  (emission)  the emitted assembly TEXT, parsed by this harness into the subset instruction list, vs the model's
-              assignment of the allocation read back from the real IR + its second canonicalize + its
-              prologue/epilogue insertion (`c21_finish`);
-  (execution) the parsed real assembly executed by the Coq x86-64 subset machine on boundary/random argument
-              vectors (register arguments with garbage upper bits for narrow types, stack arguments, sentinel
-              values in every callee-saved register, the real return address of the native trampoline in the
-              return slot) vs the NATIVE execution of the same text (gcc/as + ctypes trampoline): rax, rbx, rbp,
-              r12-r15 and the rsp delta must agree exactly -- also on the defective programs.
-Oracle (independent of the model): the natively returned value, truncated to the type width, equals an
-independent two's-complement python evaluation of the source function, every callee-saved register still
-holds its sentinel and rsp is back; a program the pipeline accepts must assemble.  Programs the pipeline rejects
-(OutOfRegisters, unsupported op, constant outside si32) are skipped and counted.
-Non-trivial: the program was compiled, has at least two simultaneously live values and either uses a
+Tie.  Every generated func/arith integer function (i64 mostly, also i32/i16/i8; constants incl. 0 and values
+outside si32, add/mul chains and wide trees, argument reuse, 0..10 arguments, dead code, a few unsupported `subi`)
+is pushed through the REAL documented pipeline (convert-func-to-x86-func, convert-arith-to-x86,
+reconcile-unrealized-casts, canonicalize, dce, x86-allocate-registers, canonicalize,
+x86-prologue-epilogue-insertion, -t x86-asm).  Per program three observables of the real run are compared, in one
+coqc round, with the Coq model (coq/C21/Model.v) evaluated by vm_compute:
+  (lowering)  the x86 IR after `dce` (canonically renumbered), or the fact that the pipeline rejects the program
+              while lowering / at emission, vs `c21_lower` of the source;
+  (emission)  the emitted assembly TEXT, parsed by this harness into the subset instruction list, vs `c21_finish`:
+              the model's assignment of the allocation READ BACK from the real IR (the allocator is property C19
+              and is not re-modelled), its second canonicalize and its prologue/epilogue insertion; the Coq
+              predicate alloc_ok (hypothesis of the theorems) must be true of every real allocation;
+  (execution) the parsed REAL assembly executed by the Coq x86-64 subset machine on boundary/random argument
+              vectors (garbage upper bits for narrow types, stack-passed arguments, a sentinel in every
+              callee-saved register, the trampoline's real return address in the return slot) vs the NATIVE
+              execution of the same text (as/gcc + ctypes trampoline, in a forked child): rax, rbx, rbp, r12-r15
+              and the rsp delta must agree exactly -- also on the defective programs -- and the Coq reference
+              semantics src_sem must equal the harness's python evaluation of the source.
+Oracle (independent of the model): the natively returned value, truncated to the type width, equals an independent
+two's-complement python evaluation of the source function, every callee-saved register still holds its sentinel,
+rsp is back, the call returns; a program the pipeline accepts must assemble.  Programs the pipeline rejects
+(OutOfRegisters, unsupported op, constant outside si32) are skipped and counted; an accepted program outside the
+modelled subset (none on this tree) is still judged by the oracle and reported as uncovered.
+Non-trivial: the program was compiled, has at least two simultaneously live values and either pushes a
 callee-saved register (prologue/epilogue emitted) or reads a stack-passed argument; distinct = distinct
 (program, emitted text).
 """
@@ -34,8 +39,8 @@ import struct
 import subprocess
 from pathlib import Path
 
-from harness.common import (BUILD, COQ, REPO, Ctx, DiffSpec, ModelUnavailable, Untranslatable, coq_bool, coq_list,
-                            coq_Z, coq_Zs, differential, exc_code, replay_findings, to_jsonable)
+from harness.common import (BUILD, COQ, REPO, Ctx, DiffSpec, ModelUnavailable, coq_list, coq_Z, coq_Zs, differential,
+                            exc_code, replay_findings, to_jsonable)
 
 # ------------------------------------------------------------------------------------------------
 # case format (JSON):
@@ -96,7 +101,6 @@ def src_eval(case, vec):
 # ------------------------------------------------------------------------------------------------
 # the real pipeline
 
-_CTX = None
 _PASSES = None
 
 
@@ -270,7 +274,8 @@ def prog_key(case) -> str:
 
 def compile_case(case):
     """run the real pipeline on the program of `case` (cached).  Result keys:
-       status   ok | reject (the pipeline raised) | unmodelled (accepted, but outside the modelled subset)
+       status   ok | reject (the pipeline raised);  unmodelled = reason if an accepted program lies outside the
+                modelled subset (then only the native oracle judges it)
        stage    where it was rejected;  exc/code/why
        pre      canonical dump of the x86 IR after `dce` (None if an op outside the subset was left over)
        alloc    register index per operation of `pre`, read back right after x86-allocate-registers
@@ -312,8 +317,9 @@ def compile_case(case):
         stage = "emit"
         out["text"] = x86_code(module)
         out["asm"], out["uncovered"] = parse_asm(out["text"])
-        if unmodelled is not None:
-            out["status"], out["why"] = "unmodelled", unmodelled
+        if unmodelled is None and out["uncovered"]:
+            unmodelled = "assembly line(s) outside the subset: " + "; ".join(x.strip() for x in out["uncovered"][:3])
+        out["unmodelled"] = unmodelled      # accepted, but outside the modelled subset: oracle only
     except BaseException as e:  # the pipeline rejects the program
         if isinstance(e, (KeyboardInterrupt, SystemExit, MemoryError)):
             raise
@@ -427,6 +433,7 @@ def rename_label(text: str, name: str) -> str:
 
 class Native:
     """one shared object holding the trampoline and every assembled function of a batch"""
+    _count = 0
 
     def __init__(self, workdir: Path):
         self.dir = workdir
@@ -468,12 +475,14 @@ class Native:
                 for t, msg in bad.items():
                     self.noasm[t] = msg
                 part = [t for t in part if t not in bad]
-        cmd = ["gcc", "-shared", "-nostdlib", "-Wl,-z,noexecstack", "-o", str(self.dir / "c21.so"),
+        Native._count += 1      # dlopen caches by path: never reuse a library name within one process
+        so = self.dir / f"c21_{os.getpid()}_{Native._count}.so"
+        cmd = ["gcc", "-shared", "-nostdlib", "-Wl,-z,noexecstack", "-o", str(so),
                str(self.dir / "tramp.s")] + [str(o) for o in objs]
         p = subprocess.run(cmd, capture_output=True, text=True)
         if p.returncode != 0:
             raise ModelUnavailable("gcc failed to link the native oracle: " + p.stderr[-500:])
-        self.lib = ctypes.CDLL(str(self.dir / "c21.so"))
+        self.lib = ctypes.CDLL(str(so))
         self.ret_addr = ctypes.cast(self.lib.c21_after_call, ctypes.c_void_p).value
 
     def _assemble(self, texts, stem):
@@ -782,14 +791,18 @@ def coq_instr(i) -> str:
 
 
 def code_version():
-    """which repairs the prologue pass under test contains, as extracted by the translator from its source"""
+    """which repairs the code under test contains, as extracted by the translator from its source"""
     from harness.translate import c21_tables
     f = c21_tables.extract(REPO)
-    return f["prologue_shifts"], f["select_by_index"]
+    return f["prologue_shifts"], f["select_by_index"], f["rejects_imul8"]
 
 
 def coq_ver():
     return "current_version"
+
+
+def coq_rej8():
+    return "c21_rejects_imul8"
 
 
 # ------------------------------------------------------------------------------------------------
@@ -803,11 +816,11 @@ def lowering_impl(case):
         return r["pre"]
     if r["status"] == "reject":
         return -1           # rejected while lowering, or an unconverted op was left behind and emission refused
-    return [-4]             # accepted but outside the modelled IR subset
+    return [-4]             # accepted but outside the modelled IR subset (never part of the differential)
 
 
 def lowering_expr(case, p=None):
-    return f"enc_lower {p or coq_prog(case)}"
+    return f"enc_lower_v {coq_rej8()} {p or coq_prog(case)}"
 
 
 def emission_impl(case):
@@ -817,7 +830,7 @@ def emission_impl(case):
 
 def emission_expr(case, p=None):
     r = compile_case(case)
-    return f"enc_finish {coq_ver()} {p or coq_prog(case)} {coq_Zs(r['alloc'][:-1])}"
+    return f"enc_finish_v {coq_rej8()} {coq_ver()} {p or coq_prog(case)} {coq_Zs(r['alloc'][:-1])}"
 
 
 _NATIVE: dict = {"obj": None, "results": {}}
@@ -847,7 +860,6 @@ def native_batch(cases, workdir: Path):
 
 def execution_impl(case):
     r = compile_case(case)
-    key0 = (r["text"], tuple(case["vecs"][0])) if case["vecs"] else None
     if any((r["text"], tuple(v)) not in _NATIVE["results"] for v in case["vecs"]):
         d = BUILD / f"c21-native-{os.getpid()}-{len(_NATIVE['results'])}"
         try:
@@ -955,7 +967,7 @@ FAMILY = "pipeline"
 
 def applicable(case):
     r = compile_case(case)
-    return r["status"] == "ok" and not r["uncovered"] and bool(case.get("vecs"))
+    return r["status"] == "ok" and not r["unmodelled"] and bool(case.get("vecs"))
 
 
 def pipeline_impl(case):
@@ -983,6 +995,32 @@ def pipeline_nontrivial(case, res):
     return None if res[2] == 0 else execution_nontrivial(case, res[2])
 
 
+def replay_case(ctx: Ctx, witness: dict) -> int:
+    """./check C21 --replay file: re-run the recorded program on pipeline, native oracle and model"""
+    case = witness.get("case", witness)
+    if not isinstance(case, dict) or "ops" not in case:
+        print("nothing to replay (no program in the witness)")
+        return 0
+    case.setdefault("vecs", [])
+    r = compile_case(case)
+    print("pipeline:", r["status"], r.get("stage", ""), r.get("exc", ""), r.get("why", "") or r.get("unmodelled") or "")
+    if r["status"] != "ok":
+        return 0
+    print(r["text"])
+    res = to_jsonable(pipeline_impl(case)) if not r["unmodelled"] else [[-4], 0, to_jsonable(execution_impl(case))]
+    ok, why = (True, "") if res[2] == 0 else execution_holds(case, res[2])
+    print("native:", res[2])
+    print("oracle:", "holds" if ok else "FAILS: " + why, "| known finding class:", None if ok else execution_known(case, res[2]))
+    if not r["unmodelled"]:
+        try:
+            model = ctx.coq_eval(REQ, [pipeline_expr(case)])[0]
+            print("model :", model[2] if len(model) > 2 else model)
+            print("model == implementation:", model == res)
+        except ModelUnavailable as e:
+            print("model unavailable:", str(e)[:300])
+    return 0 if ok else 1
+
+
 def generate(ctx: Ctx):
     from harness.translate import c21_tables
     info = c21_tables.generate(REPO, COQ / "Gen")
@@ -1008,7 +1046,7 @@ def run(ctx: Ctx):
             progs.append(c)
     stats = {"accepted": 0, "rejected": {}, "unmodelled": 0, "widths": {}, "nargs": {}, "uncovered_lines": 0,
              "emitted_lines": 0, "with_prologue": 0, "with_stack_loads": 0}
-    ok_cases, unmodelled = [], []
+    ok_cases, oracle_only, unmodelled = [], [], []
     for c in progs:
         r = compile_case(c)
         stats["widths"][str(c["w"])] = stats["widths"].get(str(c["w"]), 0) + 1
@@ -1019,36 +1057,40 @@ def run(ctx: Ctx):
             stats["uncovered_lines"] += len(r["uncovered"])
             stats["with_prologue"] += any(i[0] == I_PUSH for i in r["asm"])
             stats["with_stack_loads"] += any(i[0] == I_LOAD for i in r["asm"])
-            if r["uncovered"]:
-                unmodelled.append({"case": c, "uncovered": r["uncovered"][:3]})
+            if r["unmodelled"]:
+                stats["unmodelled"] += 1
+                unmodelled.append({"case": c, "why": r["unmodelled"]})
+                oracle_only.append(c)
             else:
                 ok_cases.append(c)
-        elif r["status"] == "reject":
+        else:
             k = f"{r['exc']}@{r['stage']}"
             stats["rejected"][k] = stats["rejected"].get(k, 0) + 1
-        else:
-            stats["unmodelled"] += 1
-            unmodelled.append({"case": c, "why": r.get("why")})
     ctx.coverage["programs"] = stats
     ctx.coverage["uncovered_fraction_of_emitted_lines"] = (
         round(stats["uncovered_lines"] / stats["emitted_lines"], 4) if stats["emitted_lines"] else 0.0)
     if unmodelled:
+        # never the case on the tree this model was written for: the model no longer describes what is emitted
         ctx.coverage["outside_modelled_subset"] = to_jsonable(unmodelled[:5])
-    ctx.coverage["modelled_code_version"] = dict(zip(("prologue_shifts_stack_offsets", "selects_callee_saved_by_index"),
-                                                      code_version()))
+        ctx.broken.append({"correspondence": FAMILY, "programs_outside_the_modelled_subset": len(unmodelled),
+                           "first": to_jsonable(unmodelled[0])})
+    ctx.coverage["modelled_code_version"] = dict(zip(("prologue_shifts_stack_offsets", "selects_callee_saved_by_index",
+                                                           "refuses_8bit_imul"), code_version()))
 
     # one family, one coqc round: [lowering, emission, execution] per program (0 = not applicable)
-    cases = []
+    cases, extra = [], []
     okset = {prog_key(c) for c in ok_cases}
+    ooset = {prog_key(c) for c in oracle_only}
     for c in progs:
         d = dict(c)
-        d["vecs"] = gen_vecs(rng, c, nvec) if prog_key(c) in okset else []
-        cases.append(d)
+        d["vecs"] = gen_vecs(rng, c, nvec) if prog_key(c) in okset | ooset else []
+        (extra if prog_key(c) in ooset else cases).append(d)
     for e in ctx.known_findings + ctx.fixed_findings:
         if "witness" in e:
-            cases.append(dict(e["witness"]))
+            d = dict(e["witness"])
+            (extra if compile_case(d).get("unmodelled") else cases).append(d)
     workdir = ctx.tmpdir() / "native"
-    native_batch([c for c in cases if c["vecs"]], workdir)
+    native_batch([c for c in cases + extra if c["vecs"]], workdir)
     nat = _NATIVE["obj"]
     if nat is None or not nat.available:
         ctx.broken.append({"oracle": "gcc/as not available: the native oracle cannot run"})
@@ -1057,5 +1099,24 @@ def run(ctx: Ctx):
                                   "argument_vectors_per_program": nvec}
     differential(ctx, DiffSpec(FAMILY, REQ, cases, pipeline_impl, pipeline_expr, pipeline_holds,
                                pipeline_known, pipeline_nontrivial, shard=40 if thorough else 30))
+    # accepted programs outside the modelled subset: no model to compare with, the native oracle still judges them
+    if extra:
+        active, fails, hits = ctx.active_known_ids(), [], {}
+        for c in extra:
+            res = to_jsonable(execution_impl(c))
+            ok, why = execution_holds(c, res)
+            ctx.evaluations += 1
+            if not ok:
+                kid = execution_known(c, res)
+                if kid and kid in active:
+                    hits[kid] = hits.get(kid, 0) + 1
+                else:
+                    fails.append((c, res, why))
+        ctx.coverage["oracle_only"] = {"cases": len(extra), "oracle_failures": len(fails), "known_finding_hits": hits}
+        if fails:
+            fails.sort(key=lambda x: len(json.dumps(x[0])))
+            c, res, why = fails[0]
+            ctx.violation({"family": "oracle-only (outside the modelled subset)", "case": c, "impl_result": res,
+                           "oracle": why, "other_failing_cases": len(fails) - 1})
     replay_findings(ctx, FAMILY, pipeline_impl, pipeline_holds)
     ctx.coverage["rule"] = __doc__.split("\n\n", 1)[1][:2400]
